@@ -22,3 +22,26 @@ try:
         pass
 except ImportError:
     pass
+
+
+def structural():
+    """the formatters, the style classes and the converter to pastel styles keep no module- or class-level object that their
+    code mutates: how a style is rendered cannot depend on what was rendered (or converted) before"""
+    from pyvc import frontend, structural as st
+    P = frontend.Program()
+    bad = []
+    for mod in ("clikit.adapter.style_converter", "clikit.formatter.ansi_formatter", "clikit.formatter.plain_formatter",
+                "clikit.formatter.null_formatter", "clikit.formatter.default_style_set", "clikit.api.formatter.style",
+                "clikit.api.formatter.style_set", "clikit.api.formatter.formatter"):
+        try:
+            mi = P.module(mod)
+        except Exception as e:  # noqa
+            bad.append("%s: cannot be read (%r)" % (mod, e))
+            continue
+        bad += ["%s: %s" % (mod, f) for f in st.shared_mutable_state(mi)]
+    return [{
+        "name": "C11.formatters.frame.no_shared_state", "kind": "frame",
+        "text": "the formatter, style and style-converter modules hold no module- or class-level object that their code mutates "
+                "or re-binds",
+        "status": "proved" if not bad else "failed", "note": "; ".join(bad[:6]),
+    }]
